@@ -166,6 +166,89 @@ fn check_cfg(ctx: &Ctx, cfg: &Cfg, dp: usize) -> CfgOut {
     CfgOut { out, checkpoints: checkpoints.len(), sizes: sizes.into_iter().collect() }
 }
 
+/// Larger periods: every prefix length 0..=3n+3 of two default streams is a
+/// checkpoint; the restored copy (one and two round trips) must follow the
+/// original over three continuations of n+2 inputs.
+fn long_history_family(ctx: &Ctx, cfg: &Cfg) -> JobOut {
+    let mut out = JobOut::default();
+    let n = cfg.max_period();
+    let len = 3 * n + 3;
+    let alpha = generic_alphabet(cfg.kind, false);
+    let nan = continuation_alphabet(cfg.kind)[3];
+    let streams: Vec<Vec<Op>> = vec![
+        (0..len).map(|i| alpha[(i * 5 + i / 3) % alpha.len()]).collect(),
+        (0..len).map(|i| if i == n / 2 || i == 2 * n { Op::Reset } else if i == n + 1 { nan } else { alpha[(i / 2) % alpha.len()] }).collect(),
+    ];
+    let conts: Vec<Vec<Op>> = vec![
+        (0..n + 2).map(|i| alpha[i % alpha.len()]).collect(),
+        (0..n + 2).map(|i| alpha[(i * 3 + 2) % alpha.len()]).collect(),
+        (0..n + 2).map(|i| alpha[3 - (i / 2) % alpha.len().min(4)]).collect(),
+    ];
+    for st in &streams {
+        for l in 0..=len {
+            if ctx.out_of_time() {
+                out.stats.capped.push(format!("time cap in long-history family of {}", cfg.descr()));
+                return out;
+            }
+            let cp = &st[..l];
+            out.stats.states += 1;
+            let r = std::panic::catch_unwind(std::panic::AssertUnwindSafe(|| {
+                let mut a = make(cfg);
+                for op in cp {
+                    a.apply(op);
+                }
+                let bytes = a.ser().map_err(|e| (0usize, 0usize, format!("serialize: {}", e)))?;
+                let r1 = a.de(&bytes).map_err(|e| (0usize, 0usize, format!("deserialize: {}", e)))?;
+                let bytes2 = r1.ser().map_err(|e| (0usize, 0usize, format!("serialize restored: {}", e)))?;
+                if params_text(r1.as_ref()) != params_text(a.as_ref()) {
+                    return Err((0, 0, format!("parameters {} vs {}", params_text(r1.as_ref()), params_text(a.as_ref()))));
+                }
+                for (ci, c) in conts.iter().enumerate() {
+                    let mut orig = make(cfg);
+                    for op in cp {
+                        orig.apply(op);
+                    }
+                    let mut b1 = a.de(&bytes).map_err(|e| (ci, 0usize, format!("deserialize: {}", e)))?;
+                    let mut b2 = a.de(&bytes2).map_err(|e| (ci, 0usize, format!("deserialize 2nd: {}", e)))?;
+                    for (i, op) in c.iter().enumerate() {
+                        let oa = orig.apply(op);
+                        let o1 = b1.apply(op);
+                        let o2 = b2.apply(op);
+                        if !out_rel_eq(&oa, &o1, 1e-12) || !out_rel_eq(&oa, &o2, 1e-12) {
+                            return Err((ci, i + 1, format!("original {} restored {} / {}", out2s(&oa), out2s(&o1), out2s(&o2))));
+                        }
+                    }
+                }
+                Ok(())
+            }));
+            out.stats.traces += 3;
+            out.stats.transitions += (4 * l + 9 * (n + 2)) as u64;
+            out.stats.evaluations += 6 * (n + 2) as u64;
+            out.stats.nontrivial += 1;
+            match r {
+                Ok(Ok(())) => {}
+                Ok(Err((ci, i, why))) => {
+                    let mut ops = cp.to_vec();
+                    ops.extend_from_slice(&conts[ci][..i]);
+                    out.fail(
+                        Violation::new(PROP, cfg, &ops, if why.contains("serialize") { "deserialize-failed" } else if why.starts_with("parameters") { "parameters-changed" } else { "restored-copy-differs" })
+                            .obs(why)
+                            .exp("restored copy behaves like the original".into())
+                            .det(format!("checkpoint after {} ops of a default stream, continuation output {}", l, i))
+                            .with("checkpoint", format!("serde@{}", l)),
+                    );
+                    return out;
+                }
+                Err(_) => {
+                    out.fail(Violation::new(PROP, cfg, cp, "panic").obs("panic".into()).exp("same outputs".into()));
+                    return out;
+                }
+            }
+        }
+    }
+    out
+}
+
 /// DataItem: every lattice tuple that build() accepts round-trips to an equal value.
 fn data_items(out: &mut JobOut) {
     let lat = [f64::NEG_INFINITY, -2.0, -1.0, -0.0, 0.0, 1.0, 2.0, 3.0, f64::INFINITY, f64::NAN];
@@ -231,6 +314,17 @@ pub fn run(ctx: &Ctx) -> CheckResult {
         res.absorb(o.out);
     }
     if !res.out.failed() {
+        let periods: Vec<usize> = if th { vec![5, 6, 7, 8, 9, 10, 12, 14, 16, 20, 22, 26, 31, 32, 33, 64, 100, 255, 256, 257] } else { vec![5, 8, 9, 10, 14, 16, 20, 22, 26, 32, 64] };
+        let mut big = vec![];
+        for k in ALL_KINDS {
+            big.extend(generic_cfgs(k, &periods, &[9, 12, 26]));
+        }
+        big.sort_by_key(|c| std::cmp::Reverse(c.max_period()));
+        let outs = par_run(ctx, &big, |_, cfg| long_history_family(ctx, cfg));
+        res.extra.insert("long_history_family_configs".into(), json!(big.len()));
+        res.absorb(merge_jobs(outs));
+    }
+    if !res.out.failed() {
         let mut o = JobOut::default();
         data_items(&mut o);
         res.absorb(o);
@@ -238,7 +332,7 @@ pub fn run(ctx: &Ctx) -> CheckResult {
     res.extra.insert("checkpoints".into(), json!(rows));
     res.extra.insert("distinct_checkpoint_states_total".into(), json!(total_cp));
     res.rule = "case = (configuration, checkpoint history, continuation): the real indicator after the history is serialized with bincode and deserialized once and twice; every continuation of n+2 inputs over 3 values is fed to the original (rebuilt by replay) and both restored copies, outputs compared at 1e-12 relative; checkpoints de-duplicated by concrete state; non-trivial = checkpoint history at least as long as the window".into();
-    res.bounds = format!("all 22 indicators, periods 1..4 (tuples over {{1,2,3}}), every history in seq(4 values + NaN + reset, {dp}) as checkpoint, all 3^(n+2) continuations; all 10^5 lattice DataItems that build() accepts");
+    res.bounds = format!("all 22 indicators, periods 1..4 (tuples over {{1,2,3}}), every history in seq(4 values + NaN + reset, {dp}) as checkpoint, all 3^(n+2) continuations; long-history family: every prefix length 0..=3n+3 of 2 default streams (with resets and a NaN) as checkpoint for periods up to 64/257 (defaults 9,10,14,20,22,12/26/9 included), 3 continuations of n+2 inputs; all 10^5 lattice DataItems that build() accepts");
     res.assumptions = vec!["bincode 1.3 is the serialization format exercised (the property names it)".into()];
     res
 }
